@@ -279,3 +279,36 @@ Theorem C04_last_pointer_wins : forall m1 Rs m' objs' pads' q ht raw oldlen ps s
   p = handle_of ht depth.
 Proof. exact last_pointer_wins. Qed.
 Print Assumptions C04_last_pointer_wins.
+
+(* ------------------------------------------------------------------ history level, for every program *)
+From CV Require Import Core.BuildOps Core.BuildInv Core.HeapOps Core.HeapSteps Core.HeapFrames.
+
+(* [T24] every op of the interpreter has the frame [touch state op] (a function of the state
+   before the step): data setters exactly their field, Struct.SetPtr / PointerList.Set / SetRoot
+   the pointer word (whatever they copy goes to fresh storage), List.SetStruct / CopyFrom the
+   destination struct's own sections, every other op nothing *)
+Theorem C04_step_frame : forall e st objs pads o st' out,
+  sinv st objs pads -> spool st -> sub_op o = true -> dst_only st o -> bstep e st o = (Some st', out) ->
+  keeps (w_dst (st_w st)) (w_dst (st_w st')) (touch st o) /\ nsegs (w_dst (st_w st)) <= nsegs (w_dst (st_w st')).
+Proof. exact bstep_frame. Qed.
+Print Assumptions C04_step_frame.
+
+(* [T25] hence every run of every program is a chain of these frames *)
+Theorem C04_run_chain : forall e, cfg_strict (e_cfgs e) = true -> forall ops st objs pads,
+  sinv st objs pads -> spool st -> sub_prog ops = true -> dst_run e st ops -> Forall seg_bound (bstates e st ops) ->
+  chain (w_dst (st_w st)) (touches e st ops) (w_dst (st_w (final e st ops))).
+Proof. exact brun_chain. Qed.
+Print Assumptions C04_run_chain.
+
+(* [T26] history level, for every program of the interpreter: what a data setter wrote into a
+   field is what is read back at the end of any program that follows, provided no later op
+   touches the field (per op: its [touch] set) - setters on other fields or objects, pointer
+   setters with all their copies, constructors, capabilities, reads, reopen do not change it *)
+Theorem C04_run_last_write_wins : forall e m0 st1 objs pads ops sid addr bs,
+  cfg_strict (e_cfgs e) = true ->
+  wrote m0 (w_dst (st_w st1)) sid addr bs -> 0 <= sid -> zlen (mem m0 sid) < 4294967296 ->
+  sinv st1 objs pads -> spool st1 -> sub_prog ops = true -> dst_run e st1 ops -> Forall seg_bound (bstates e st1 ops) ->
+  Forall (fun R : Z -> Z -> Prop => forall k, addr <= k < addr + zlen bs -> ~ R sid k) (touches e st1 ops) ->
+  slice (mem (w_dst (st_w (final e st1 ops))) sid) addr (zlen bs) = Ok bs.
+Proof. exact run_last_write_wins. Qed.
+Print Assumptions C04_run_last_write_wins.
